@@ -97,7 +97,7 @@ def bank_entry(cc, code, bic, name, primary=None):
 def scenario_docs(k: int, rng: random.Random):
     """(overlays, affected countries, description)."""
     table = data.countries()  # the unmodified tree (plan() runs in the orchestrator)
-    kinds = ["new_country", "partial_positions", "scalar_dict", "name_order", "v2_bank", "bank_between", "one_key", "sandwich", "random_mix"]
+    kinds = ["new_country", "partial_positions", "scalar_dict", "name_order", "v2_bank", "bank_between", "one_key", "lookup_components", "sandwich", "random_mix"]
     kind = kinds[k % len(kinds)] if k < 2 * len(kinds) else "random_mix"
     ov, aff = {}, []
     if kind == "new_country":
@@ -185,6 +185,23 @@ def scenario_docs(k: int, rng: random.Random):
         if rng.random() < 0.5:
             ov["iban_registry/site_3_more.json"] = {c1: {"in_sepa_zone": {"x": 1}}, c2: {"marker": [1, 2]}}
         aff = [c1, c2]
+    elif kind == "lookup_components":
+        # an overlay that names the bank key of a country as an ordered list of components that are not adjacent
+        # / not in BBAN order / more than the shipped data ever use, and bank files keyed the way it says
+        cands = [c_ for c_ in ("GB", "IE", "BG", "FR", "IT", "ES", "GR", "CY", "HU") if c_ in table and "branch_code" in (table[c_].get("positions") or {}) and not any(b_.get("country_code") == c_ for b_ in data.banks()[:0])]
+        cc = rng.choice(cands)
+        pos_ = table[cc]["positions"]
+        order = rng.choice([["branch_code", "bank_code"], ["bank_code", "account_code"], ["account_code", "bank_code"], ["bank_code", "branch_code", "bank_code"]])
+        order = [c_ for c_ in order if c_ in pos_ and pos_[c_][1] > pos_[c_][0]]
+        ov["iban_registry/zz_lookup.json"] = {cc: {"bic_lookup_components": order}}
+        cls_ = R.position_classes(table[cc]["bban_spec"])
+        ents = []
+        for j in range(3):
+            vals_ = {c_: "".join(rng.choice(cls_[i]) for i in range(pos_[c_][0], pos_[c_][1])) for c_ in dict.fromkeys(order)}
+            key = "".join(vals_[c_] for c_ in order)
+            ents.append(bank_entry(cc, key, f"ZZ{j}{cc}{cc}XX"[:4] + cc + "2L" + ("XXX" if j else ""), f"Keyed bank {j}", j == 0))
+        ov["bank_registry/manual_zz_lookup.json"] = ents
+        aff = [cc]
     elif kind == "one_key":
         cc = rng.choice(sorted(table))
         ov["iban_registry/zz_one.json"] = {cc: {"in_sepa_zone": not table[cc].get("in_sepa_zone", False)}}
